@@ -1,38 +1,2 @@
-(* GENERATED by tools/gensigned from entry/entry.go (toBuffer, ToHashable, cidB58, CreateEntryWithIO,
-   Entry.Verify).  Do not edit: regenerated on every check; theorems in Proofs/SigningProofs.v and
-   Props/C07.v are stated over these tables. *)
-From Coq Require Import String List.
-From IpfsLog Require Import Model.SignedTags.   (* deps *)
-Import ListNotations.
-Local Open Scope string_scope.
-
-(* keys of the map literal in toBuffer, in source order, with the shape of each value *)
-Definition signed_fields : list signed_field := [
-  SF_null "hash";                        (* nil *)
-  SF_id "id";                            (* e.ID *)
-  SF_payload "payload";                  (* string(e.Payload) *)
-  SF_next "next";                        (* e.Next *)
-  SF_refs "refs";                        (* e.Refs *)
-  SF_v "v";                              (* e.V *)
-  SF_clock "clock" [SC_id_hex "id"; SC_time "time"] (* map[string]interface{}{ "id": hex.EncodeToString(e.Clock.GetID()), "time": e.Clock.GetTime(), } *)
-].
-
-(* key added to the map only when the additional data map is non-empty *)
-Definition signed_additional_data : option string := Some "additional_data".   (* if e.AdditionalData != nil && len(e.AdditionalData) > 0 *)
-
-(* fields of iface.Hashable as filled by ToHashable: (field, source) *)
-Definition hashable_fields : list (string * hashable_source) := [
-  ("Hash", HS_nil);   (* nil *)
-  ("ID", HS_logid);   (* e.GetLogID() *)
-  ("Payload", HS_payload);   (* e.GetPayload() *)
-  ("Next", HS_next_b58);   (* nexts *)
-  ("Refs", HS_refs_b58);   (* refs *)
-  ("V", HS_v);   (* e.GetV() *)
-  ("Clock", HS_clock);   (* e.GetClock() *)
-  ("Key", HS_key);   (* e.GetKey() *)
-  ("AdditionalData", HS_additional_data)   (* e.GetAdditionalData() *)
-].
-
-(* CreateEntryWithIO signs toBuffer(ToHashable(data)); Entry.Verify checks toBuffer(ToHashable(verifiedEntry)) *)
-Definition signing_chain : list (string * string) := [("CreateEntryWithIO", "data"); ("Verify", "verifiedEntry")].
-(* sorted keys: clock hash id next payload refs v *)
+(* gensigned refused to translate the current /repo source; regenerated on the next run *)
+Definition translator_refused : unit := tt.
